@@ -50,6 +50,7 @@ import (
 	"os"
 	"slices"
 	"sync"
+	"sync/atomic"
 	"time"
 
 	"github.com/ovh/kmip-go"
@@ -363,8 +364,11 @@ func WithDialerUnsafe(dialer DialerFunc) Option {
 // processing. It provides thread-safe access to the underlying connection and
 // configuration options such as supported protocol versions and custom dialers.
 type Client struct {
-	lock              *sync.Mutex
+	lock *sync.Mutex
+	// conn is replaced under lock (and connMu); connMu alone allows Close to read it while a call is in progress.
 	conn              *conn
+	connMu            sync.Mutex
+	closed            atomic.Bool
 	version           *kmip.ProtocolVersion
 	supportedVersions []kmip.ProtocolVersion
 	dialer            DialerFunc
@@ -484,20 +488,45 @@ func (c *Client) Addr() string {
 // Close terminates the client's connection and releases any associated resources.
 // It returns an error if the connection could not be closed.
 func (c *Client) Close() error {
-	return c.conn.Close()
+	c.closed.Store(true)
+	c.connMu.Lock()
+	conn := c.conn
+	c.connMu.Unlock()
+	if conn == nil {
+		// Nothing to close, e.g. after a failed reconnection
+		return nil
+	}
+	return conn.Close()
+}
+
+func (c *Client) setConn(conn *conn) {
+	c.connMu.Lock()
+	c.conn = conn
+	c.connMu.Unlock()
 }
 
 func (c *Client) reconnect(ctx context.Context) error {
-	// fmt.Println("Reconnecting")
+	if c.closed.Load() {
+		return net.ErrClosed
+	}
 	if c.conn != nil {
 		_ = c.conn.Close()
-		c.conn = nil
+		c.setConn(nil)
 	}
 	stream, err := c.dialer(ctx)
 	if err != nil {
 		return err
 	}
-	c.conn = newConn(stream)
+	conn := newConn(stream)
+	c.connMu.Lock()
+	if c.closed.Load() {
+		// The client has been closed while we were dialing
+		c.connMu.Unlock()
+		_ = conn.Close()
+		return net.ErrClosed
+	}
+	c.conn = conn
+	c.connMu.Unlock()
 	return nil
 }
 
@@ -509,7 +538,11 @@ func (c *Client) reconnect(ctx context.Context) error {
 func (c *Client) doRountrip(ctx context.Context, msg *kmip.RequestMessage) (*kmip.ResponseMessage, error) {
 	c.lock.Lock()
 	defer c.lock.Unlock()
-	if c.conn == nil {
+	if c.closed.Load() {
+		return nil, net.ErrClosed
+	}
+	// A connection terminated by an earlier failure (whatever the error was) is never usable again.
+	if c.conn == nil || c.conn.terminated() {
 		if err := c.reconnect(ctx); err != nil {
 			return nil, err
 		}
@@ -522,7 +555,7 @@ func (c *Client) doRountrip(ctx context.Context, msg *kmip.RequestMessage) (*kmi
 		if err == nil {
 			return resp, nil
 		}
-		if retry <= 0 || (!errors.Is(err, io.EOF) && !errors.Is(err, io.ErrClosedPipe)) {
+		if c.closed.Load() || retry <= 0 || (!errors.Is(err, io.EOF) && !errors.Is(err, io.ErrClosedPipe)) {
 			return nil, err
 		}
 		if err := c.reconnect(ctx); err != nil {
